@@ -174,6 +174,8 @@ def exCls : String → Cfg
           ("translate_height", fl d02), ("affine_p", fl 0), ("erase_p", fl 0), ("mixup_p", fl 0)])]
   | "ModelConfig" => nullNode ["init_weights", "pre_trained_weights", "pretrained_backbone_weights",
       "pretrained_head_weights", "backbone_config", "head_configs", "total_params"]
+  | "TrainingJobConfig" => nullNode ["data_config", "model_config", "trainer_config", "name", "description",
+      "sleap_nn_version", "filename"]
   | "BackboneConfig" => nullNode ["unet", "convnext", "swint"]
   | "HeadConfig" => nullNode ["single_instance", "centroid", "centered_instance", "bottomup"]
   | "UNetConfig" => .node [("filters", .leaf (.int 32)), ("max_stride", .leaf (.int 16))]
